@@ -215,6 +215,8 @@ func c08(tier string) []*explore.Scenario {
 				out = append(out, c08EndToEnd(stream, transit, race))
 			}
 		}
+		// the context handed to Serve has a deadline itself: later than every caller's, and in the middle of them
+		out = append(out, c08EndToEndS(stream, 0, false, 20000*time.Hour), c08EndToEndS(stream, 500*time.Microsecond, false, 30*time.Minute))
 	}
 	return out
 }
@@ -343,16 +345,28 @@ func c08Server() *explore.Scenario {
 }
 
 func c08EndToEnd(stream bool, transit time.Duration, ctxRace bool) *explore.Scenario {
+	return c08EndToEndS(stream, transit, ctxRace, 0)
+}
+
+// serveTimeout > 0: the context handed to Serve has a deadline of its own (a
+// bound on the connection's lifetime); the handler's deadline is then the
+// earlier of that and the caller's.
+func c08EndToEndS(stream bool, transit time.Duration, ctxRace bool, serveTimeout time.Duration) *explore.Scenario {
 	fam := "C08/end-to-end"
+	name := fmt.Sprintf("C08/end-to-end/stream=%v/transit=%v/ctxrace=%v", stream, transit, ctxRace)
+	if serveTimeout > 0 {
+		name += fmt.Sprintf("/serve-deadline=%v", serveTimeout)
+	}
 	return &explore.Scenario{
-		Name: fmt.Sprintf("C08/end-to-end/stream=%v/transit=%v/ctxrace=%v", stream, transit, ctxRace), Family: fam, Prop: "C08", Bound: 0, Horizon: time.Nanosecond,
+		Name: name, Family: fam, Prop: "C08", Bound: 0, Horizon: time.Nanosecond,
 		Run: func() {
 			timeouts := []time.Duration{-time.Second, 0, 1, 999 * time.Microsecond, time.Millisecond, 1500 * time.Microsecond, 2 * time.Millisecond,
 				time.Second, 1500*time.Millisecond + 7*time.Microsecond, time.Hour, time.Hour + 333*time.Millisecond,
 				99999999 * time.Millisecond, 100000000 * time.Millisecond, 100000001 * time.Millisecond, 30*time.Hour + 500*time.Millisecond,
 				100*time.Hour + 999*time.Millisecond, 10000*time.Hour - 500*time.Millisecond, 10000 * time.Hour, -2} // -2: no deadline at all
 			w := env.NewWorld()
-			d := env.NewDirect(w, env.DirectOpts{Pipe: env.PipeOpts{Cap: 64, CtxRace: ctxRace}})
+			d := env.NewDirect(w, env.DirectOpts{Pipe: env.PipeOpts{Cap: 64, CtxRace: ctxRace}, ServeTimeout: serveTimeout})
+			serveDl, _ := d.ServeCtx.Deadline()
 			d.Pipe.A.OnWrite = func(k int, rpc *env.Rpc) { vsched.Sleep(transit) }
 			vsched.Settle()
 			for i, to := range timeouts {
@@ -386,6 +400,13 @@ func c08EndToEnd(stream bool, transit time.Duration, ctxRace bool) *explore.Scen
 				}
 				dl, has := r.HCtx.Deadline()
 				vsched.Obs("timeout=%v handlerDeadline=%v(%v)", to, has, dl.Sub(sendTime))
+				if serveTimeout > 0 && (to == -2 || serveDl.Before(callerDl)) {
+					// the connection's own deadline is the earlier one: it is the handler's
+					if !has || !dl.Equal(serveDl) {
+						vsched.Fail(fam+"|deadline-wrong", "Serve context deadline %v, caller timeout %v: handler deadline present=%v, %v after the send; want the connection's deadline", serveTimeout, to, has, dl.Sub(sendTime))
+					}
+					continue
+				}
 				if to == -2 {
 					if has {
 						vsched.Fail(fam+"|deadline-invented", "caller without deadline: handler has one, %v away", dl.Sub(sendTime))
